@@ -120,10 +120,11 @@ func (c *ctx) checkCase(fam, shape, class, lock string, p types.SpendPolicy, e e
 		uc, isUC := p.Type.(types.PolicyTypeUnlockConditions)
 		if isUC && hasEntropy(uc.PublicKeys) && !want && want2 {
 			// the two formulations differ only in whether an entropy key that
-			// is listed before the keys actually used is fatal; the statement
-			// does not say, the in-order walk (DESIGN) refuses. Judge by the
-			// in-order walk, record the observation.
-			b.Count("uc_unused_entropy_key_before_used_keys_refused(observed)", 1)
+			// is listed before the keys actually used is fatal. By the statement
+			// the conditions "need the required count of distinct listed keys":
+			// that count has signed, so the meaning holds; judge by it.
+			b.Count("uc_unused_entropy_key_before_used_keys", 1)
+			want, reason = true, ""
 		} else {
 			b.Inconclusive("oracle self-disagreement (functional evaluator vs flatten/zip formulation)")
 			b.Sample(map[string]any{"kind": "ORACLE SELF-DISAGREEMENT", "case": mkWit(fam, shape, class, p, e, sigs, pre, fmt.Sprint(want, "/", want2), cls)})
